@@ -13,9 +13,9 @@ CLAIMED = {
  "C03": ("Deductive proof, for all values of the supported universe, of one functional contract per operator: the result is the TLA+ value (stated over an abstract "
          "universe Val with kinds, projections and extensionality), the function panics with a TLA+ type error exactly under the stated condition (TLC's error conditions), "
          "every loop terminates (decreases clauses over the iterator model). Covered: =, #, ~, <=>, + - * unary- (with overflow), \\div % (floor semantics), comparisons, .., \\in, \\notin, \\cap, \\cup, \\subseteq, \\, "
-         "IsFiniteSet, Head, Tail, Append, \\o, SubSeq, :>, @@, DOMAIN, and the Value accessors/constructors they rest on (verified against the representation by closed-world dispatch over the seven impl types).",
+         "IsFiniteSet, Cardinality, UNION, Head, Tail, Append, Len, \\o, SubSeq, :>, @@, DOMAIN, Assert, and the Value accessors/constructors they rest on (verified against the representation by closed-world dispatch over the seven impl types).",
          "abs is *defined* by representation axioms (rep*) and the Val vocabulary of /verif/specs/10-tla.spec is trusted as a definition; benbjohnson/immutable is modelled (maps keyed by abs through tla.ValueHasher, iterators by a seen-set); "
-         "closed world for tla.impl; operators not yet under contract are listed in evidence under not_under_contract and are NOT covered: SUBSET, UNION, Cardinality, Len, Seq, Assert, ToString, ^, quantifiers, CHOOSE, comprehension, EXCEPT, cross product, function/record sets.",
+         "closed world for tla.impl; operators not yet under contract are listed in evidence under not_under_contract and are NOT covered: SUBSET, Seq, ToString, ^, quantifiers, CHOOSE, comprehension, EXCEPT, cross product, function/record sets.",
          "contract-based deductive verification: WP over go/ssa, seen-set loop invariants, inductive/nonlinear lemmas, z3/cvc5"),
  "C01": ("Deductive proof of the critical-section protocol of the runtime core: LocalArchetypeResource keeps a snapshot discipline (Abort restores the value of the last commit, Commit publishes, Read/Write never touch the snapshot); "
          "MPCalContext.commit calls PreCommit on every touched resource before any Commit (ordering obligation at every Commit call), commits none and keeps the dirty set intact if any pre-commit yields an error, otherwise commits all and empties the set; "
@@ -74,8 +74,8 @@ CLAIMED = {
          "The monitor's table is a ghost map (hashmap.HashMap is not modelled; setState/getState of Monitor are trusted against it); net, net/rpc and time are external: dial/RPC results are arbitrary, the reply object shared with the RPC machinery is not tracked. "
          "NOT covered: the timing claims ('within a bounded number of polling intervals', 'keeps doing so', 'from the first successful poll on') as temporal statements — what is proved is the per-poll transition they follow from (DESIGN.md section 3 (C19)); monitor shutdown/ListenAndServe/Close, SingleFailureDetector.Close and the IncMap wrapper.",
          "contract-based deductive verification: WP over go/ssa, strict monitor, cut-point obligations with call arguments, return-point assertions over locals, recover/panicking model, z3/cvc5"),
- "C17": ("Deductive proof, by a monitor invariant on runStateLock (thread-modular: every lock region re-establishes it, so every interleaving of Stop/Run regions does), that at most one exit request is ever sent (so the send under the lock cannot block), awaitExit is closed at most once and only when the context leaves or skips the running phase, a second Run is refused, and that cleanupResources calls Close on every registered resource.",
-         "sync.Mutex gives mutual exclusion; channels are modelled by ghost capacity / total-sends / closed state; requestExit is written only by the running Run (declared 'keeps'); Stop's postcondition closed(awaitExit) rests on the declared (and checked at every send site of the package) fact that awaitExit is never sent on; termination of the wait in Stop (liveness) and map-resource element Close (IncMap/HashMap) are NOT covered.",
+ "C17": ("Deductive proof, by a monitor invariant on runStateLock (thread-modular: every lock region re-establishes it, so every interleaving of Stop/Run regions does), that at most one exit request is ever sent (so the send under the lock cannot block), awaitExit is closed at most once and only when the context leaves or skips the running phase, a second Run is refused, that cleanupResources calls Close on every registered resource before awaitExit is closed, and that the map resources (IncMap, HashMap) close every sub-resource they hold (Persistent.Close forwards).",
+         "sync.Mutex gives mutual exclusion; channels are modelled by ghost capacity / total-sends / closed state; requestExit is written only by the running Run (declared 'keeps'); Stop's postcondition closed(awaitExit) rests on the declared (and checked at every send site of the package) fact that awaitExit is never sent on; termination of the wait in Stop (liveness), 'closed exactly once' (at least once is what is proved) and the distinct reporting of termination causes by Run are NOT covered; the map resources rest on an assumed abstract view of hashmap.HashMap.",
          "contract-based deductive verification: monitor invariants (Owicki-Gries style) over go/ssa, ghost channel state, z3/cvc5"),
 }
 
